@@ -225,8 +225,8 @@ def gen_case(rnd, ctx, max_types, max_offers, nq):
     for _ in range(nq):
         r = rnd.random()
         if r < 0.45 and route:
-            i = rnd.randrange(len(route) - 1)
-            src, tgt = route[i], route[rnd.randrange(i + 1, len(route))]
+            i = rnd.randrange(len(route) - 1) if rnd.random() < 0.4 else 0
+            src, tgt = route[i], route[rnd.randrange(i + 1, len(route)) if rnd.random() < 0.4 else -1]
         elif r < 0.8 and need:
             src, tgt = rnd.choice(need)
             if rnd.random() < 0.5:
